@@ -48,6 +48,20 @@ CHECKS = [
               'those generated under the default configuration for the hint rewritten by an independent rewriter; the '
               'violation_* options leave every guard equivalent to the default one. Counter[T] with an override of int is '
               'outside the claim (implicit value hint).'),
+    dict(id='C04', engine='G', cat='other', ref='4/C04',
+         technique='bounded symbolic execution (z3) of the generated wrapper statements over a symbolic call shape vs a z3 model of Python argument binding',
+         note='Trusted base: the statement-level symbolic executor (bearverif/symstmt.py), the z3 transcription of Python '
+              'argument binding (c04.reference_bind, written from the language reference), the class universe. Bounds: <= 3 '
+              'parameters quick / <= 4 thorough, <= 6 positional arguments, keyword names = parameter names + 2 foreign names; '
+              'signatures are enumerated (every legal kind order x annotated subset x default pattern), call shapes, argument '
+              'classes, callee result and callee-raises are solver variables. sat models are replayed on a real decorated '
+              'function against inspect.signature.bind + isinstance.',
+         text='For each enumerated signature the real wrapper is executed symbolically and the solver shows, for every call '
+              'shape within the bounds: no parameter violation when every bound value fits its own annotation (so nothing is '
+              'checked against a foreign annotation and unpassed defaults stay unchecked); the original is not called when a bound '
+              'value misfits; each violation names a parameter whose own bound value misfits; the original is called once with '
+              '*args/**kwargs unchanged; its result object or exception comes back unchanged; no IndexError/KeyError/unbound '
+              'name is reachable for binding or non-binding shapes.'),
     dict(id='C09', engine='G', cat='translation_validation', ref='4/C09',
          technique='SMT (z3) cost term over item-reading AST nodes with unbounded symbolic container length',
          text='Fast path: the translator attaches a cost to every item read (x[i], next(iter(x)), mapping lookups; len for '
@@ -68,7 +82,6 @@ NOT_APPLICABLE = [
 ]
 
 PENDING = [
-    ('C04', 'planned (Engine G statement level); not yet built in this commit'),
     ('C06', 'planned (Engine P); not yet built in this commit'),
     ('C07', 'planned (Engine G, partial); not yet built in this commit'),
     ('C13', 'planned (Engine G, partial); not yet built in this commit'),
